@@ -161,6 +161,11 @@ def directed_packages():
     tx = '<style:style style:name="X1" style:family="text"><style:text-properties fo:font-weight="bold"/></style:style>'
     master = '<style:master-page style:name="Standard" style:page-layout-name="pm1"><style:header><text:p><text:span text:style-name="X1">h</text:span></text:p></style:header></style:master-page>'
     out.append(('one style name in two families', P.simple_package('<text:p text:style-name="X1">b</text:p>', autostyles=px, styles_auto='<style:page-layout style:name="pm1"/>' + tx, masterstyles=master)))
+    # an automatic table style of content.xml and a common paragraph style of styles.xml with one name: different families, no collision
+    out.append(('an automatic style and a common style of another family with one name', P.simple_package(
+        '<table:table table:name="t" table:style-name="Table1"><table:table-column/><table:table-row><table:table-cell><text:p text:style-name="Table1">x</text:p></table:table-cell></table:table-row></table:table>',
+        autostyles='<style:style style:name="Table1" style:family="table"><style:table-properties style:width="10cm"/></style:style>',
+        styles='<style:style style:name="Table1" style:family="paragraph"><style:text-properties fo:color="#ff0000"/></style:style>')))
     # embedded objects as office suites write them: a chart with a meta.xml of its own, a formula whose content.xml is MathML
     obj = lambda n: '<text:p><draw:frame draw:name="%s" svg:width="5cm" svg:height="2cm"><draw:object xlink:href="./%s" xlink:type="simple" xlink:show="embed" xlink:actuate="onLoad"/></draw:frame></text:p>' % (n, n)
     chart = P.content_xml('<chart:chart chart:class="chart:bar"><chart:plot-area/></chart:chart>', kind='chart')
@@ -193,7 +198,8 @@ def run_one(ctx, d, refattrs, data, case):
     n0 = [0]
     def report(what, where, observed, expected, match):
         n0[0] += 1
-        ctx.violation(what, dict(case, where=where), observed, expected, dict(match, mutation=case.get('mutation')))
+        ctx.violation(what, dict(case, where=where), observed, expected,
+                      dict(match, mutation=case.get('mutation'), directed=case.get('source') if case.get('mutation') == 'directed' else None))
     L.compare(src, dst, refattrs, report)
     # correspondence of the loader on the source parts
     def part(nm):
